@@ -58,6 +58,11 @@ pub struct Report {
     pub extra: Mutex<BTreeMap<String, Value>>,
     pub stop: AtomicBool,
     pub replay_only: Option<Value>,
+    /// known findings of this property: each a list of substrings that must all occur in
+    /// signature+detail; such violations are still listed (the driver prints KNOWN-FINDING) but
+    /// do not stop the run early
+    pub known: Vec<Vec<String>>,
+    pub known_hits: AtomicU64,
 }
 
 impl Report {
@@ -82,6 +87,8 @@ impl Report {
             extra: Mutex::new(BTreeMap::new()),
             stop: AtomicBool::new(false),
             replay_only: None,
+            known: vec![],
+            known_hits: AtomicU64::new(0),
         }
     }
 
@@ -148,20 +155,41 @@ impl Report {
     }
 
     pub fn violation(&self, signature: impl Into<String>, detail: impl Into<String>, replay: Value) {
-        let mut v = self.violations.lock().unwrap();
         let signature = signature.into();
-        // keep the first 20 distinct signatures in full
+        let detail = detail.into();
+        let text = format!("{signature} {detail}");
+        let is_known = self
+            .known
+            .iter()
+            .any(|k| !k.is_empty() && k.iter().all(|s| text.contains(s.as_str())));
+        let mut v = self.violations.lock().unwrap();
+        if is_known {
+            // keep a few examples only
+            if self.known_hits.fetch_add(1, Ordering::Relaxed) >= 3 {
+                return;
+            }
+        }
         if v.len() < 200 {
             v.push(Violation {
                 signature,
-                detail: detail.into(),
+                detail,
                 replay,
             });
         }
     }
 
+    /// violations that are not known findings
     pub fn violation_count(&self) -> usize {
-        self.violations.lock().unwrap().len()
+        let v = self.violations.lock().unwrap();
+        v.iter()
+            .filter(|x| {
+                let text = format!("{} {}", x.signature, x.detail);
+                !self
+                    .known
+                    .iter()
+                    .any(|k| !k.is_empty() && k.iter().all(|s| text.contains(s.as_str())))
+            })
+            .count()
     }
 
     pub fn inconclusive(&self, s: impl Into<String>) {
@@ -232,6 +260,7 @@ impl Report {
             "assumptions": self.assumptions.lock().unwrap().clone(),
             "wall_s": (self.elapsed() * 1000.0).round() / 1000.0,
             "violations": viols.len(),
+            "known_finding_hits": self.known_hits.load(Ordering::Relaxed),
             "violation_list": viols,
             "machinery_errors": self.machinery.lock().unwrap().clone(),
         })
